@@ -640,6 +640,16 @@ def refused (s : Scheme) (e b p tl aLarge : Nat) : Bool :=
   decide (tl > maxTransferLength s e b) ||
   ((s == .rs || s == .rsus) && (p == 0 || decide (aLarge + p > 255))) ||
   ((s == .raptor || s == .raptorq) && decide (aLarge > kMax s)) ||
-  (s == .rs && decide (b + p > 255))
+  (s == .rs && decide (b + p > 255)) ||
+  -- FEC Encoding ID 129: the 16-bit fields of its FEC OTI (/repo dc01bce)
+  (s == .rsus && decide (b + p > 65535))
+
+/-- `FileDesc::new` in full: `refused`, or - Raptor (FEC Encoding ID 1) - the partition uses a source block of 2 or 3
+    symbols, which the encoder cannot encode (/repo 42b2a1c; finding D23 / D26 repaired for objects).
+    `(aLarge, aSmall, nL, n)` = `block_partitioning(B, tl, E)`. -/
+def refusedFull (s : Scheme) (e b p tl aLarge aSmall nL n : Nat) : Bool :=
+  refused s e b p tl aLarge ||
+  (s == .raptor &&
+    ((decide (nL > 0) && (aLarge == 2 || aLarge == 3)) || (decide (n > nL) && (aSmall == 2 || aSmall == 3))))
 
 end Flute.Session
